@@ -25,6 +25,7 @@ pub enum Family {
     NonCanonical,
     SigReencode,
     BitFlipPairs,
+    FooterRespell,
 }
 impl Family {
     fn name(self) -> &'static str {
@@ -39,6 +40,7 @@ impl Family {
             Family::NonCanonical => "6-noncanonical-b64",
             Family::SigReencode => "7-sig-reencode",
             Family::BitFlipPairs => "8-bitflip-pairs",
+            Family::FooterRespell => "9-footer-respelled",
         }
     }
 }
@@ -286,6 +288,77 @@ pub fn mutants(fam: Family, proto: Proto, t: &str, others: &[String]) -> Vec<Str
                 }
             }
         }
+        Family::FooterRespell => {
+            // other bytes in the footer segment that a *text-level* comparison might take for the same footer:
+            // ill-formed UTF-8 in place of each U+FFFD (what a lossy decode maps to it), case changes, added /
+            // removed white space, the other normalisation form, a BOM
+            if let Some(f) = p.rest.strip_prefix('.') {
+                if let Some(fb) = b64::decode_strict(f) {
+                    let mut alts: Vec<Vec<u8>> = Vec::new();
+                    let pat = [0xefu8, 0xbf, 0xbd];
+                    let ill: [&[u8]; 8] = [&[0xff], &[0x80], &[0xc0], &[0xef, 0xbf], &[0xf3, 0xbf, 0xbd], &[0xed, 0xa0, 0x80], &[0xc0, 0xaf], &[0xf8, 0x88, 0x80, 0x80, 0x80]];
+                    let mut i = 0;
+                    while i + 3 <= fb.len() {
+                        if fb[i..i + 3] == pat {
+                            for r in ill {
+                                let mut v = fb[..i].to_vec();
+                                v.extend_from_slice(r);
+                                v.extend_from_slice(&fb[i + 3..]);
+                                alts.push(v);
+                            }
+                            i += 3;
+                        } else {
+                            i += 1;
+                        }
+                    }
+                    // every U+FFFD at once
+                    if fb.windows(3).any(|w| w == pat) {
+                        for r in [&[0xffu8][..], &[0x80]] {
+                            let mut v = Vec::new();
+                            let mut j = 0;
+                            while j < fb.len() {
+                                if j + 3 <= fb.len() && fb[j..j + 3] == pat {
+                                    v.extend_from_slice(r);
+                                    j += 3;
+                                } else {
+                                    v.push(fb[j]);
+                                    j += 1;
+                                }
+                            }
+                            alts.push(v);
+                        }
+                    }
+                    if let Ok(txt) = std::str::from_utf8(&fb) {
+                        for t in [
+                            txt.to_uppercase(),
+                            txt.to_lowercase(),
+                            format!("{} ", txt),
+                            format!(" {}", txt),
+                            format!("{}\n", txt),
+                            format!("\u{feff}{}", txt),
+                            format!("{}\0", txt),
+                            txt.trim().to_string(),
+                        ] {
+                            alts.push(t.into_bytes());
+                        }
+                    }
+                    // an invalid byte appended / prepended (a lossy or truncating text view may drop it)
+                    for extra in [0xffu8, 0x80, 0xc3] {
+                        let mut v = fb.clone();
+                        v.push(extra);
+                        alts.push(v);
+                        let mut w = vec![extra];
+                        w.extend_from_slice(&fb);
+                        alts.push(w);
+                    }
+                    for a in alts {
+                        if a != fb {
+                            out.push(format!("{}{}.{}", p.header, p.payload, b64::encode(&a)));
+                        }
+                    }
+                }
+            }
+        }
         Family::SigReencode => {
             let d = &p.decoded;
             match proto {
@@ -354,7 +427,8 @@ fn base_messages() -> Vec<String> {
 fn bases(p: Proto, quick: bool) -> Vec<Base> {
     let pool = domains::key_pool(p);
     let keys: Vec<_> = if quick { pool.into_iter().take(1).collect() } else { pool.into_iter().take(2).collect() };
-    let footers: Vec<Option<String>> = vec![None, Some("f".into())];
+    // the third footer contains U+FFFD (what a lossy UTF-8 decode produces) and mixed case
+    let footers: Vec<Option<String>> = vec![None, Some("f".into()), Some("Kid\u{fffd}x\u{fffd}".into())];
     let assertions: Vec<Option<String>> = if p.has_assertion() { vec![None, Some("{\"test-vector\":\"4-S-3\"}".into())] } else { vec![None] };
     let msgs = base_messages();
     let seed = domains::seeds(p)[2].clone();
@@ -365,7 +439,11 @@ fn bases(p: Proto, quick: bool) -> Vec<Base> {
         for (fi, f) in footers.iter().enumerate() {
             for (ai, a) in assertions.iter().enumerate() {
                 for (mi, m) in msgs.iter().enumerate() {
-                    if quick && !((mi == 1 && fi == 1 && ai == assertions.len() - 1) || (mi == 0 && fi == 0 && ai == 0)) {
+                    if quick && !((mi == 1 && fi == 1 && ai == assertions.len() - 1) || (mi == 0 && fi == 0 && ai == 0) || (mi == 0 && fi == 2 && ai == 0)) {
+                        continue;
+                    }
+                    // the U+FFFD footer only with the shortest message (its purpose is the footer families)
+                    if fi == 2 && mi != 0 {
                         continue;
                     }
                     let case = IssueCase::new(p, Layer::Core, k, Some(&seed), m, f, a);
@@ -427,6 +505,7 @@ pub fn run(tier: &str) -> i32 {
         Family::Splice,
         Family::NonCanonical,
         Family::SigReencode,
+        Family::FooterRespell,
     ];
     if !quick {
         fams.push(Family::BitFlipPairs);
@@ -442,6 +521,12 @@ pub fn run(tier: &str) -> i32 {
                     if bs[bi].case.msg == "{}" && bs[bi].case.footer.is_none() && bs[bi].case.assertion.is_none() && bs[bi].case.key_label == bs[0].case.key_label {
                         units.push((*p, bi, *f, Layer::Core));
                     }
+                    continue;
+                }
+                // the U+FFFD-footer base exists for the footer families; the big text-edit families already
+                // run on the two other bases
+                let fffd_base = bs[bi].case.footer.as_deref().map_or(false, |f| f.contains('\u{fffd}'));
+                if fffd_base && !matches!(f, Family::FooterRespell | Family::NonCanonical | Family::Splice | Family::BoundaryShift | Family::Prefix) {
                     continue;
                 }
                 for l in Layer::ALL {
